@@ -104,6 +104,8 @@ extern int (* vk_on_connect)(struct vsock *, int port, struct vk_connect_answer 
 extern int (* vk_on_socket)(void);	/* return errno to fail socket(), 0 to succeed */
 extern void (* vk_on_close)(struct vsock *);
 extern void (* vk_on_recv)(struct vsock *, long result, int err);
+extern const void * vk_last_recv_buf;	/* buffer address of the recv call being reported */
+extern size_t vk_last_recv_len;
 extern void (* vk_on_send)(struct vsock *, const void * buf, long result, int err);
 
 #endif
